@@ -24,3 +24,13 @@ claim("C18",
       "Each read-modify-write of a bundle's budget entry must lie in one exclusive lock region (all schedules); each store to remainingCopies is evaluated symbolically: selection = r-1 (or r-floor(r/2) with the block carrying exactly that term), guarded by r>=2 and paired with exactly one selected peer; failure = r+1 / r+announced copies on every path; single peer per call for binary spray; initial budgets L/1/received. These per-step facts hold for every history because they are checked on every path of the code.",
       "Not decided: the budget invariant over whole histories (restarts, retries across calls); only its per-step premises.",
       "DESIGN.md §3 C18")
+claim("C14",
+      "ordering (must-pass-before) on the call-graph-expanded CFG of SendBundle + lockset/RMW on IdKeeper.data + who-may-call / who-may-write inventories",
+      "On every path of Core.SendBundle the sequence number is assigned before any call that can reach Store.Push and nowhere afterwards, the descriptor is built from the numbered bundle, the counter's read-increment-store-into-bundle is one exclusive region (all schedules of concurrent submissions), and every originator funnels through SendBundle. Path and lock facts quantify over all submission sequences and interleavings.",
+      "Not decided: uniqueness across the IdKeeper.clean horizon (time arithmetic), restarts (the keeper is in memory).",
+      "DESIGN.md §3 C14")
+claim("C05",
+      "release-for-cause table over every call site that drops retention (guarded-call dominance), must-pass exits of forward, who-may-write Pending, call-graph wiring of the retry loop, assign-before-persist ordering, zero-time contradiction rule, multi-instance-goroutine atomicity rule",
+      "Safety half of store-carry-forward for all histories and schedules: no path releases a bundle's retention without its tabled cause; every exit of forward deletes-for-cause, releases-after-success or marks pending; the retry loop is wired and complete; numbering precedes persisting; a zero creation time is never used as an expiry date; concurrent failure reports are serialised.",
+      "Not decided: liveness (eventual retransmission), crash/restart, epidemic's offer-to-every-new-peer as a history property.",
+      "DESIGN.md §3 C05")
